@@ -925,6 +925,50 @@ construct_block(Array<D, int>& x, const Box& box, FILE* out, NdStats& st, const 
     }
 }
 
+// serialise the REAL array level by level for the Lean model of nested index-range maps (`nd` lines of Driver/C11.lean)
+template <int D>
+struct Ser
+{
+  static void put(std::ostream& s, const Array<D, int>& a)
+  {
+    s << "N " << a.get_min_index() << ' ' << a.size();
+    for (int i = a.get_min_index(); i <= a.get_max_index(); ++i)
+      {
+        s << ' ';
+        Ser<D - 1>::put(s, a[i]);
+      }
+  }
+};
+template <>
+struct Ser<1>
+{
+  static void put(std::ostream& s, const Array<1, int>& a)
+  {
+    s << "L " << a.get_min_index() << ' ' << a.size();
+    for (int i = a.get_min_index(); i <= a.get_max_index(); ++i)
+      s << ' ' << a[i];
+  }
+};
+// one question to the model: the checked access at `cc` and size_all(), with the implementation's own answer
+template <int D>
+static void
+nd_question(FILE* out, const Array<D, int>& a, const std::vector<int>& cc, bool threw, int got)
+{
+  std::ostringstream s;
+  s << "NDQ nd ";
+  Ser<D>::put(s, a);
+  s << " @";
+  for (int d = 0; d < D; ++d)
+    s << ' ' << cc[d];
+  s << " => ";
+  if (threw)
+    s << "err";
+  else
+    s << "val:" << got;
+  s << " size=" << a.size_all();
+  std::fprintf(out, "%s\n", s.str().c_str());
+}
+
 // every checked access path: at(coordinate) and chained at(int), through a const and a non-const array
 template <int D>
 struct AtChain
@@ -1040,6 +1084,8 @@ nd_histories(vh::Rng& rng, int histories, int len, FILE* out, NdStats& st)
                             threw = true;
                           }
                         ++g_checks;
+                        if (a.size_all() <= 400)
+                          nd_question<D>(out, a, cc, threw, got);
                         if (threw || got != v)
                           {
                             oracle_fail(out, st, D,
@@ -1126,17 +1172,20 @@ nd_histories(vh::Rng& rng, int histories, int len, FILE* out, NdStats& st)
                     }
                   cc[lvl] = (valid && r->n() > 0) ? (rng.coin() ? r->hi() + 1 : r->lo - 1) : 1000;
                   bool threw = false;
+                  int got_outside = 0;
                   try
                     {
                       const int form = rng.range(0, 3);
                       trace << "at-form " << form << "; ";
-                      (void)checked_read<D>(a, cc, form);
+                      got_outside = checked_read<D>(a, cc, form);
                     }
                   catch (std::out_of_range&)
                     {
                       threw = true;
                     }
                   ++g_checks;
+                  if (a.size_all() <= 400)
+                    nd_question<D>(out, a, cc, threw, got_outside);
                   if (!threw)
                     {
                       oracle_fail(out, st, D, "at() outside the range did not throw", trace.str());
